@@ -56,7 +56,7 @@ var logOnly = map[string]bool{
 // stop there (schedSpec.Coarse)
 var innerLabel = map[string]bool{
 	"ad.sub": true, "job.sp.load": true, "job.mc.load": true, "jclose.checked": true, "disp.cas.load": true, "reap.expired": true,
-	"add.pre": true, "resp.stored": true, "bind.sub": true, "wgc.load": true,
+	"add.pre": true, "resp.stored": true, "bind.sub": true, "wgc.load": true, "wrap.wf": true, "wrap.ret": true,
 }
 
 type gate struct {
@@ -213,7 +213,7 @@ func (g *gate) fillArgs(e event, label string, a []any) {
 	case "serve.recv":
 		e["node"] = g.nodeOrd(a[0])
 		e["job"] = jk(a[1])
-	case "serve.fin", "serve.closed", "jclose.marked", "job.sp.load", "job.mc.load", "jclose.checked", "serve.wfdone", "add.pre":
+	case "serve.fin", "serve.closed", "jclose.marked", "job.sp.load", "job.mc.load", "jclose.checked", "serve.wfdone", "add.pre", "wrap.wf", "wrap.ret":
 		e["job"] = jk(a[0])
 	case "serve.freed", "free.push", "free.stop", "reap.removed", "reap.stopped", "stopall.removed", "tune.popped", "reap.expired":
 		e["node"] = g.nodeOrd(a[0])
